@@ -9,6 +9,8 @@ import (
 	"sort"
 	"strconv"
 	"strings"
+	"sync/atomic"
+	"time"
 
 	"verif/common"
 	"verif/gcs/drive"
@@ -24,6 +26,59 @@ func workers() int {
 		n = 2
 	}
 	return n
+}
+
+// mutWatchdog bounds PATCH / DELETE / compose / rewrite requests of the model-driven checks (the general watchdog of
+// the drive client, 60 s, bounds everything else). A request that is not answered within its watchdog refutes every
+// property whose statement says what the request answers: the case reports "request not answered within <d>: <request>"
+// and is abandoned at once, its server is not used again (it may hold an object's lock for good), and after
+// maxUnanswered such reports the run stops.
+const (
+	mutWatchdog   = 20 * time.Second
+	maxUnanswered = 3
+)
+
+var unansweredReqs atomic.Int64
+
+// tooMany: enough was reported to stop exploring (violations of any kind, or requests that got no answer).
+func tooMany(run *common.Run) bool {
+	return run.TooMany() || unansweredReqs.Load() >= maxUnanswered
+}
+
+// noResp renders "the request got no response": a watchdog expiry as "request not answered within <d>: <request>".
+func noResp(what, req string, rsp *drive.Resp) string {
+	if rsp.Unanswered > 0 {
+		unansweredReqs.Add(1)
+		return fmt.Sprintf("%s = %s", rsp.Err, req)
+	}
+	return what + " got no response: " + rsp.Err
+}
+
+// srvPool keeps one emulator per store for the cases a worker runs one after the other. A server on which a request
+// went unanswered is dropped (closed in the background) and replaced by a fresh one.
+type srvPool map[string]*drive.Server
+
+func (p srvPool) get(store string) (*drive.Server, error) {
+	if s := p[store]; s != nil {
+		if !s.Wedged() {
+			return s, nil
+		}
+		s.Close()
+		delete(p, store)
+	}
+	s, err := drive.Start(store, "")
+	if err != nil {
+		return nil, err
+	}
+	s.Client.Guard(mutWatchdog)
+	p[store] = s
+	return s, nil
+}
+
+func (p srvPool) closeAll() {
+	for _, s := range p {
+		s.Close()
+	}
 }
 
 // stepRec is one executed step as it is written into samples and replay files.
@@ -56,6 +111,11 @@ type exec struct {
 	readOnly bool   // ... because the step consisted of reads only
 	stats    map[string]int64
 	sess     *sessInfo // the resumable session of the upload in progress / just decided (nil: none was opened)
+	// queue holds the remaining requests of a multi-request scenario drawn by an earlier step: runStep executes them one
+	// per step (each followed by the caller's dump and comparisons) before it draws a new kind.
+	queue   []func(r *common.Rand) string
+	bigDone int64         // "same bytes again" scenarios started (stats are flushed, this is not)
+	lateCur *model.Object // the object (nil: absent) against which the last upload's conditions were judged
 }
 
 // sessInfo is what a client still knows about a resumable session after its deciding response.
@@ -67,6 +127,7 @@ type sessInfo struct {
 }
 
 func newExec(srv *drive.Server, strictGrowth bool) *exec {
+	srv.Client.Guard(mutWatchdog)
 	return &exec{cl: srv.Client, kind: srv.Kind, m: model.NewStore(), laws: model.NewLaws(strictGrowth),
 		universe: map[string][]string{}, touched: map[string]bool{}, stats: map[string]int64{}, snaps: map[string][]map[string]any{}}
 }
@@ -226,6 +287,15 @@ type uploadSpec struct {
 	// Between, if set, runs after the session was initiated and before the first chunk (C04: the object changes
 	// while the session is open; the conditions must be judged against the state at completion).
 	Between func() string `json:"-"`
+	// Mid, if set, runs once while the session is open and partly sent: after the MidAfter-th (>= 1) data chunk that was
+	// answered 308 and before the session's next request. A session whose content fits into fewer chunk requests never
+	// runs it (MidRan stays false).
+	Mid      func() string `json:"-"`
+	MidAfter int
+	MidRan   bool
+	// FixedChunks: every data chunk is exactly ChunkMax bytes long (the last one shorter), so that the number of chunk
+	// requests is known in advance.
+	FixedChunks bool
 }
 
 var wellFormedRe = regexp.MustCompile(`^[A-Za-z0-9._/-]+$`)
@@ -313,9 +383,11 @@ func (e *exec) sendUpload(u *uploadSpec, r *common.Rand) (final *drive.Resp, sub
 		return init, sub, "resumable initiation answered 2xx without an upload_id in Location"
 	}
 	if u.Between != nil {
+		sub = append(sub, "-- other requests while the session is open, before its first chunk (recorded as the steps before this one)")
 		if msg := u.Between(); msg != "" {
 			return init, sub, "while the session was open: " + msg
 		}
+		e.stats["resumable_sessions_with_requests_before_first_chunk"]++
 	}
 	target := drive.SessionTarget(u.Bucket, id)
 	method := "PUT"
@@ -329,10 +401,11 @@ func (e *exec) sendUpload(u *uploadSpec, r *common.Rand) (final *drive.Resp, sub
 	}
 	e.stats["resumable_sessions"]++
 	sess := &sessInfo{method: method, target: target}
-	e.sess = sess
+	e.sess = sess // (a Between hook may have run uploads of its own)
 	N := int64(len(u.Body))
 	var stored, maxSent int64
 	queries, resends := 0, 0 // bounded so that truncating re-sends cannot starve progress
+	dataChunks := 0          // data chunks answered 308 so far
 	send := func(cr string, body []byte) *drive.Resp {
 		rsp := e.cl.ResumableChunk(method, target, cr, body)
 		sess.lastCR, sess.lastBody = cr, body
@@ -375,6 +448,9 @@ func (e *exec) sendUpload(u *uploadSpec, r *common.Rand) (final *drive.Resp, sub
 		default:
 			lo := stored
 			ln := int64(1 + r.Intn(u.ChunkMax))
+			if u.FixedChunks {
+				ln = int64(u.ChunkMax)
+			}
 			hi := lo + ln - 1
 			if hi >= N-1 {
 				hi = N - 1
@@ -404,6 +480,19 @@ func (e *exec) sendUpload(u *uploadSpec, r *common.Rand) (final *drive.Resp, sub
 			return rsp, sub, fmt.Sprintf("308 reply reports %d bytes stored (Range %q) but only %d bytes were ever sent", k, rsp.Header.Get("Range"), maxSent)
 		}
 		stored = k
+		if len(sess.lastBody) > 0 {
+			dataChunks++
+		}
+		if u.Mid != nil && !u.MidRan && dataChunks >= max(1, u.MidAfter) {
+			u.MidRan = true
+			sub = append(sub, fmt.Sprintf("-- other requests while the session is open, %d of %d bytes stored (recorded as the steps before this one)", stored, N))
+			msg := u.Mid()
+			e.sess = sess
+			if msg != "" {
+				return rsp, sub, fmt.Sprintf("while the session was open (%d of %d bytes stored): %s", stored, N, msg)
+			}
+			e.stats["resumable_sessions_with_requests_between_chunks"]++
+		}
 	}
 	return &drive.Resp{Err: "gave up"}, sub, "resumable upload did not finish within 200 requests although every byte was offered"
 }
@@ -489,6 +578,7 @@ func (e *exec) upload(u *uploadSpec, r *common.Rand) string {
 	// The expectation is computed against the model as it is when the upload completes (sendUpload does not touch the
 	// model; only a Between hook does).
 	cur := e.m.Get(u.Bucket, u.Name)
+	e.lateCur = cur
 	v := model.Eval(cur, u.Conds)
 	expect := "200 + resource"
 	switch {
@@ -504,7 +594,7 @@ func (e *exec) upload(u *uploadSpec, r *common.Rand) string {
 	e.recResp(u.describe(), expect, rsp, sub)
 	e.stats["uploads_"+u.Proto]++
 	if rsp.Err != "" {
-		return "upload got no response: " + rsp.Err
+		return noResp("upload", u.describe(), rsp)
 	}
 	if complaint != "" {
 		return complaint
@@ -602,7 +692,7 @@ func (e *exec) retryRejectedSession(u *uploadSpec, r *common.Rand, cur *model.Ob
 			"not acknowledged (308 or 4xx), nothing changed: the session declared md5Hash "+declared, rsp.String(), nil)
 		e.lastFull += fmt.Sprintf("\nretry %s -> %d", what, rsp.Status)
 		if rsp.Err != "" {
-			return rsp, "retry on a resumable session got no response: " + rsp.Err
+			return rsp, noResp("retry on a resumable session", fmt.Sprintf("%s %q on the session of %s/%q", s.method, cr, u.Bucket, u.Name), rsp)
 		}
 		return rsp, ""
 	}
@@ -694,7 +784,7 @@ func (e *exec) del(b, n string, c model.Conds) string {
 	e.recResp(req, expect, rsp, nil)
 	e.stats["deletes"]++
 	if rsp.Err != "" {
-		return "delete got no response: " + rsp.Err
+		return noResp("delete", req, rsp)
 	}
 	if cur != nil && v == model.Pass {
 		if !rsp.OK() {
@@ -770,7 +860,7 @@ func (e *exec) delFolder(b, n string, c model.Conds) string {
 	e.stats["deletes"]++
 	e.stats["deletes_of_folder_prefix_names"]++
 	if rsp.Err != "" {
-		return "delete got no response: " + rsp.Err
+		return noResp("delete", req, rsp)
 	}
 	// which error status is not part of what the stores have to agree on
 	e.lastFull = fmt.Sprintf("acknowledged=%v", rsp.OK())
@@ -923,7 +1013,7 @@ func (e *exec) patch(b, n string, fields map[string]any, c model.Conds) string {
 		}
 	}
 	if rsp.Err != "" {
-		return "patch got no response: " + rsp.Err
+		return noResp("patch", req, rsp)
 	}
 	if cur != nil && v == model.Pass {
 		if !rsp.OK() {
@@ -1026,7 +1116,7 @@ func (e *exec) patchBad(b, n string, bp *badPatch, c model.Conds) string {
 	e.stats["patches"]++
 	e.stats["patches_type_error_body"]++
 	if rsp.Err != "" {
-		return "patch got no response: " + rsp.Err
+		return noResp("patch", req, rsp)
 	}
 	if !rsp.OK() {
 		e.mustSame = true
@@ -1189,7 +1279,7 @@ func (e *exec) compose(c *composeSpec) string {
 	e.recResp(req, expect, rsp, nil)
 	e.stats["composes"]++
 	if rsp.Err != "" {
-		return "compose got no response: " + rsp.Err
+		return noResp("compose", req, rsp)
 	}
 	if len(why) > 0 {
 		e.mustSame = true
@@ -1273,7 +1363,7 @@ func (e *exec) copyObjBody(sb, sn, db, dn string, body map[string]any) string {
 	e.recResp(req, expect, rsp, nil)
 	e.stats["copies"]++
 	if rsp.Err != "" {
-		return "copy got no response: " + rsp.Err
+		return noResp("copy", req, rsp)
 	}
 	if src == nil {
 		e.mustSame = true
@@ -1370,6 +1460,11 @@ func (e *exec) verify() string {
 	d := e.cl.Dump(e.namesToDump(), forms)
 	e.stats["dumps"]++
 	e.touched = map[string]bool{}
+	if e.cl.Unanswered() > 0 {
+		// a read of the dump got no answer (the remaining ones were not sent)
+		unansweredReqs.Add(1)
+		return e.cl.FirstUnanswered() + " = a read of the whole-store dump"
+	}
 	msg := e.diff(d)
 	canon := d.Canon("", "")
 	if msg == "" && e.mustSame && e.last != nil {
